@@ -77,7 +77,7 @@ Proof.
       exfalso. apply (I2 rank sc0 (ec_node ec) v E0 ltac:(lia) Ev). rewrite El2. exact Er. }
     unfold sc_add. rewrite Hnone. rewrite El2 at 1. rewrite N.eqb_refl.
     rewrite (Hvf El2). cbn [fst hr scs disc].
-    repeat split; cbn [hr scs disc].
+    repeat split; unfold hr_entry_ok, below_ok, hr_present, no_worse; cbn [hr scs disc].
     + intros sc H. rewrite aget_aset_same in H. injection H as <-. cbn [sc_commit sc_votes].
       exists ec. repeat split; try assumption; try (apply Hvf; exact El2).
       * rewrite El2. exact Hprim.
@@ -103,7 +103,7 @@ Proof.
     + (* a vote for the highest-ranked scheduler *)
       destruct (I3 ltac:(lia)) as [sc0 Hsc0]. rewrite Heq in *. rewrite Hsc0 in *.
       destruct (I1 sc0 Hsc0) as (ec0 & Hc0 & Hn0 & Hf0 & Hp0 & Hv0).
-      repeat split; cbn [hr scs disc].
+      repeat split; unfold hr_entry_ok, below_ok, hr_present, no_worse; cbn [hr scs disc].
       * intros sc H. rewrite aget_aset_same in H. injection H as <-. cbn [sc_commit sc_votes].
         destruct (ec_node ec =? ec_sched ec) eqn:Eown.
         -- apply N.eqb_eq in Eown. exists ec. repeat split; try assumption; try (apply Hvf; exact Eown).
@@ -116,12 +116,12 @@ Proof.
       * intros r sc H. destruct (N.eq_dec r (hr p)) as [->|Hne]; [lia|].
         rewrite aget_aset_other in H by exact Hne. apply (I4 r sc H).
     + (* a vote for a better-ranked scheduler that has not committed yet *)
-      repeat split; cbn [hr scs disc].
+      repeat split; unfold hr_entry_ok, below_ok, hr_present, no_worse; cbn [hr scs disc].
       * intros sc H. rewrite aget_aset_other in H by lia. apply I1. exact H.
       * intros r sc n v H Hlt'. destruct (N.eq_dec r rank) as [->|Hne].
         -- rewrite aget_aset_same in H. injection H as <-. cbn [sc_votes].
            destruct (N.eq_dec n (ec_node ec)) as [->|Hnn].
-           ++ intros Hx. apply Hns. apply (Hinj _ _ rank Hx Er).
+           ++ intros _ Hx. apply Hns. apply (Hinj _ _ rank Hx Er).
            ++ rewrite aget_aset_other by exact Hnn.
               destruct (aget rank (scs p)) as [sc0|] eqn:E0.
               ** intros Hv. apply (I2 rank sc0 n v E0 Hlt Hv).
@@ -173,4 +173,85 @@ Proof.
   intros Hs Hi Hv.
   destruct (inv_run c R ops new_pool Hs Hi Hv (inv_new c R)) as (_ & _ & _ & I4).
   apply I4.
+Qed.
+
+(* ---------- distinct workers have distinct ranks unless round + size wraps around 2^64 ---------- *)
+
+Fixpoint wprefix (l : committee) : list N :=
+  match l with
+  | (ro, k) :: r => if is_rworker ro then k :: wprefix r else []
+  | [] => []
+  end.
+
+Lemma rank_scan_idx l id : forall total idx isw t' i' w',
+  rank_scan l id total idx isw = (t', i', w') ->
+  t' = total + N.of_nat (length (wprefix l)) /\
+  (w' = true -> (isw = true /\ i' = idx) \/
+                (total <= i' /\ nth_error (wprefix l) (N.to_nat (i' - total)) = Some id)).
+Proof.
+  induction l as [|[ro k] r IH]; intros total idx isw t' i' w'; cbn [rank_scan wprefix].
+  - intros H. injection H as <- <- <-. cbn [length]. split; [lia|]. intros ->. left. split; reflexivity.
+  - destruct (is_rworker ro).
+    + cbn [length]. destruct (k =? id) eqn:E; intros H; apply IH in H as [H1 H2]; (split; [lia|]); intros Hw;
+        destruct (H2 Hw) as [[Ha Hb]|[Ha Hb]].
+      * right. subst i'. split; [lia|]. replace (N.to_nat (total - total)) with 0%nat by lia.
+        cbn [nth_error]. apply N.eqb_eq in E. congruence.
+      * right. split; [lia|]. replace (N.to_nat (i' - total)) with (S (N.to_nat (i' - (total + 1)))) by lia.
+        cbn [nth_error]. exact Hb.
+      * left. split; assumption.
+      * right. split; [lia|]. replace (N.to_nat (i' - total)) with (S (N.to_nat (i' - (total + 1)))) by lia.
+        cbn [nth_error]. exact Hb.
+    + intros H. injection H as <- <- <-. cbn [length]. split; [lia|]. intros ->. left. split; reflexivity.
+Qed.
+
+Lemma mod_inj_window T x y : 0 < T -> x mod T = y mod T -> x <= y -> y - x < T -> x = y.
+Proof.
+  intros HT Hm Hle Hlt.
+  pose proof (N.div_mod x T ltac:(lia)) as Hx. pose proof (N.div_mod y T ltac:(lia)) as Hy.
+  rewrite Hm in Hx.
+  assert (x / T <= y / T) by (apply N.div_le_mono; lia).
+  assert (y / T = x / T) by nia. nia.
+Qed.
+
+Lemma rank_inj_no_wrap c R : R + N.of_nat (length c) <= W64 -> rank_inj c R.
+Proof.
+  intros Hnw a b r Ha Hb. unfold scheduler_rank in Ha, Hb.
+  destruct (rank_scan c a 0 0 false) as [[Ta ia] wa] eqn:Ea.
+  destruct (rank_scan c b 0 0 false) as [[Tb ib] wb] eqn:Eb.
+  pose proof (rank_scan_spec _ _ _ _ _ _ _ _ Ea) as (_ & HTa & _).
+  apply rank_scan_idx in Ea as [HTa' Hia]. apply rank_scan_idx in Eb as [HTb' Hib].
+  destruct wa; [|discriminate Ha]. destruct wb; [|discriminate Hb].
+  destruct (Hia eq_refl) as [[Hf _]|[_ Hna]]; [discriminate Hf|].
+  destruct (Hib eq_refl) as [[Hf _]|[_ Hnb]]; [discriminate Hf|].
+  rewrite N.sub_0_r in Hna, Hnb.
+  assert (Hla : (N.to_nat ia < length (wprefix c))%nat) by (apply nth_error_Some; congruence).
+  assert (Hlb : (N.to_nat ib < length (wprefix c))%nat) by (apply nth_error_Some; congruence).
+  injection Ha as Ha. injection Hb as Hb. subst Tb. rewrite HTa' in *.
+  set (T := 0 + N.of_nat (length (wprefix c))) in *.
+  assert (HT : 0 < T) by (unfold T; lia).
+  assert (Hia' : ia < T) by (unfold T; lia). assert (Hib' : ib < T) by (unfold T; lia).
+  rewrite (N.mod_small (R + ia) W64) in Ha by lia.
+  rewrite (N.mod_small (R + ib) W64) in Hb by lia.
+  assert (Heq : ia = ib).
+  { destruct (N.le_ge_cases ia ib) as [Hle|Hle].
+    - assert (R + ia = R + ib) by (apply (mod_inj_window T); [exact HT|congruence|lia|lia]). lia.
+    - assert (R + ib = R + ia) by (apply (mod_inj_window T); [exact HT|congruence|lia|lia]). lia. }
+  subst ib. congruence.
+Qed.
+
+Lemma finalize_only_if_rule_history c R ops strag timeout p' sc :
+  R + N.of_nat (length c) < W64 -> Forall (verified_op R) ops ->
+  process c (run c ops new_pool) strag timeout = (p', POk sc) ->
+  rule c strag (disc (run c ops new_pool)) sc.
+Proof.
+  intros Hnw. apply finalize_only_if_rule_reachable.
+  - unfold small, U64MAX. unfold W64 in Hnw. lia.
+  - apply rank_inj_no_wrap. lia.
+Qed.
+
+Example ex_history_premises :
+  0 + N.of_nat (length ex_c) < W64 /\ Forall (verified_op 0) ex_discrepant /\ Forall (verified_op 0) ex_unanimous.
+Proof.
+  split; [vm_compute; reflexivity|].
+  split; repeat constructor; cbn; try discriminate; try reflexivity.
 Qed.
